@@ -23,6 +23,9 @@ CLAIMS = {
  "C06": ("Bounded symbolic verification of failure handling on the FULL composition: runtime exit after receiving the invocation gives the failure outcome with a JSON body naming Runtime.ExitError, an already delivered response is what the caller keeps, the generation is torn down before the answer and the next invocation recovers (also when it then stalls), for every schedule within the delay bound.",
          "Trusted as C01. Extension crashes, init/exit error reports and signal-vs-code are not yet instantiated in the check (partial claim).",
          TECH + "; FULL-stack harness"),
+ "C07": ("Bounded symbolic verification that no client behaviour wedges or crashes the emulator: on the FULL composition the first-generation runtime executes EVERY script of L calls over the whole Runtime API alphabet incl. misuse {next, response(in-flight id), response(bogus id), error, init/error, exit, stall, restore/next, restore/error}, the first-generation extension EVERY script over {register, next, init/error, exit/error, exit, stall}, optionally followed by a second faulty generation (stall / exit), then healthy generations, over 3-4 invocations and every schedule within the delay bound: no panic (log.Panic included), no deadlock at quiescence, every invocation returns within timeout + reset allowance of logical time, every body is a payload posted during that invocation or platform-made, and once the faulty generations are gone at most one further invocation fails; plus expiry racing with the lazy initialisation.",
+         "Trusted as C01. Script choices are decision variables of the same exploration as the schedule. L<=2 quick, 3 thorough; one extension; wall-clock and HTTP-level misuse outside.",
+         TECH + "; exhaustive symbolic misuse scripts, engine-level panic and deadlock detection"),
  "C09": ("Bounded symbolic verification of the shutdown choreography on the ORCH composition: for 0-2 extensions whose behaviour is a symbolic choice among {subscribed+exits 0/1, subscribed+ignores, unsubscribed, failed to launch}, runtime {exits on TERM, ignores TERM}, trigger {timeout, failure reset, shutdown}: no extension => one KILL and no TERM; otherwise TERM before KILL and KILL only after 30% of the allowance; exactly one SHUTDOWN event with the reason per subscriber, KILL only at the deadline; unsubscribed killed without event; return only after every started process was reaped; every schedule within the delay bound.",
          "Trusted: gosmt SSA semantics/intrinsics, fake supervisor contract, logical clock with concrete durations (2000 ms allowance). Already-exited / never-started runtime and the symbolic 30% arithmetic are outside.",
          TECH + "; ORCH harness, behaviour choices as decision variables"),
